@@ -59,6 +59,29 @@ fn build_v2_cs(n: usize, aead: AeadAlgorithm, seed: u64, cs: ChunkSize) -> Resul
     Ok(Built { header: p.body[..36].to_vec(), stream: p.body[36..].to_vec(), data, inner })
 }
 
+/// the same container length n, but the plaintext is a literal packet that ends exactly on a 64-octet chunk edge followed by a Padding
+/// packet (ignorable trailing packet, RFC 9580 5.14): sealed by the independent construction of C12
+fn build_v2_padded(n: usize, aead: AeadAlgorithm, aname: &str, salt: &[u8], seed: u64) -> Result<Built, String> {
+    if n < 66 { return Err("too short for a literal packet of one chunk plus a padding packet".into()); }
+    let l = (n - 2) / 64 * 64; // literal packet length
+    let d = data_len_for(l).ok_or("literal length not representable")?;
+    let mut data = vec![0u8; d];
+    rng(seed ^ 0x9AD ^ n as u64).fill_bytes(&mut data);
+    let lb = literal_body(b"", &data);
+    let mut inner = frame(true, 11, &[Chunk::Fixed(lb.len())], &lb, lb.len(), false);
+    if inner.len() != l { return Err("literal packet length".into()); }
+    let padn = n - l - 2;
+    let mut pad = vec![0u8; padn];
+    rng(seed ^ 0x9AE).fill_bytes(&mut pad);
+    inner.extend(frame(true, 21, &[Chunk::Fixed(padn)], &pad, padn, false));
+    let (aid, ivlen) = match aname { "eax" => (1u64, 8u64), "ocb" => (2, 7), _ => (3, 4) };
+    let chunks: Vec<Value> = (0..n.div_ceil(64)).map(|k| json!({"index": k, "off": k * 64, "len": 64.min(n - k * 64)})).collect();
+    let plan = json!({"info": [0xD2, 2, 7, aid, 0], "hkdf_hash": "sha256", "keylen": 16, "ivlen": ivlen, "chunks": chunks, "final_index": n.div_ceil(64), "final_total": n});
+    let body = crate::c12::seipd2_seal(&plan, 7, aid, 0, salt, &KEY, &inner)?;
+    let _ = aead;
+    Ok(Built { header: body[..36].to_vec(), stream: body[36..].to_vec(), data, inner })
+}
+
 fn build_v1(n: usize, seed: u64) -> Result<Built, String> {
     let d = data_len_for(n).ok_or("n not representable")?;
     let mut data = vec![0u8; d];
@@ -306,6 +329,23 @@ pub fn run(cases_path: &str, out_path: &str, tier: &str, seed: u64) {
                         });
                         let (ok, why) = verdict(&r, manipulated, &built.data, false, true);
                         sink.put(rec("c03.v2.message", cj, ok, "v2_message", json!({"why": why})));
+                        // the plaintext "literal packet up to a chunk edge, then a Padding packet" under the same manipulation of the stream
+                        if !is_hdr && hs == 0 && (pat == 0 || pat == 7) {
+                            if let Ok(pb) = build_v2_padded(n, *aead, aname, &built.header[4..36], seed) {
+                                if pb.stream.len() == built.stream.len() {
+                                    let (h2, s2) = apply(m, &pb, 64, 16, n, seed);
+                                    let body2 = [&h2[..], &s2[..]].concat();
+                                    let msg2 = frame(true, 18, &[Chunk::Fixed(body2.len())], &body2, body2.len(), false);
+                                    let cj = json!({"ci": ci, "layer": "v2", "aead": aname, "n": n, "manip": m, "pattern": pat, "api": "message", "variant": "literal_then_padding"});
+                                    let r = guard(|| -> Result<Result<Consumed, String>, String> {
+                                        let msg_r = match Message::from_bytes(&msg2[..]) { Ok(x) => x, Err(e) => return Ok(Err(e.to_string())) };
+                                        match msg_r.decrypt_with_session_key(PlainSessionKey::V6 { key: KEY.to_vec().into() }) { Ok(d) => Ok(Ok(consume(d, pat))), Err(e) => Ok(Err(e.to_string())) }
+                                    });
+                                    let (ok, why) = verdict(&r, manipulated, &pb.data, false, true);
+                                    sink.put(rec("c03.v2.message_variant", cj, ok, "v2_message", json!({"why": why})));
+                                }
+                            }
+                        }
                         if pat == 0 && hs == 0 {
                             for (vname, bytes) in [("marker_prefix", [&[0xCAu8, 3, b'P', b'G', b'P'][..], &msg[..]].concat()), ("marker_prefix_and_appended_octet", [&[0xCAu8, 3, b'P', b'G', b'P'][..], &msg[..], &[0u8][..]].concat()), ("appended_octet", [&msg[..], &[0u8][..]].concat())] {
                                 let appended = vname.contains("appended");
